@@ -196,6 +196,19 @@ class MockTwoDResponseCalculator(TwoDResponseCalculator):
         """Returns 2D spectrum at t2 for a system and evolution superoperator
         
         """
+        # frequencies of the pathways and of the axes are compared 
+        # in internal units, whatever units are current for the caller
+        with energy_units("int"):
+            return self._calculate_one_system_int(t2, sys, eUt, lab, 
+                                                  selection=selection, 
+                                                  pways=pways, dtol=dtol)
+        
+        
+    def _calculate_one_system_int(self, t2, sys, eUt, lab, 
+                                  selection=None, pways=None, dtol=1.0e-12):
+        """Calculation of the 2D spectrum with internal units current
+        
+        """
         try:
             Uin = eUt.at(t2)
         except:
